@@ -167,6 +167,60 @@ fn c09_check(c: &SemCase, st: &mut Stats) -> CheckResult {
     Ok(Outcome::Ok)
 }
 
+/// A grammar-valid text in which one statement has an acceptance condition but is never declared is
+/// no ADF. The library may refuse it (it panics today); if it does return an object, every declared
+/// statement must still carry exactly the condition written for it.
+fn c09_undeclared(c: &SemCase, st: &mut Stats) -> CheckResult {
+    let n = c.adf.n();
+    let (text, decl) = gen::render(&c.adf.acs, &c.adf.labels, &c.adf.layout);
+    // a victim no other condition mentions
+    let Some(&victim) = decl.iter().find(|&&v| (0..n).all(|s| s == v || !c.adf.acs[s].support().contains(&v))) else {
+        st.label("undeclared:not-applicable");
+        return Ok(Outcome::Ok);
+    };
+    let fact = format!("s({}).", gen::quote(&c.adf.labels[victim]));
+    let Some(pos) = text.find(&fact) else { return Ok(Outcome::Ok) };
+    let cut = format!("{}{}", &text[..pos], &text[pos + fact.len()..]);
+    let cut = cut.trim_start();
+    if cut.is_empty() || n < 2 {
+        return Ok(Outcome::Ok);
+    }
+    let parser = adf_bdd::parser::AdfParser::default();
+    if parser.parse()(cut).is_err() {
+        return Ok(Outcome::Ok);
+    }
+    let built = catch(|| (Adf::from_parser(&parser), adf_bdd::adfbiodivine::Adf::from_parser(&parser).hybrid_step_opt(false)));
+    match built {
+        Err(_) => {
+            st.label("undeclared:refused");
+        }
+        Ok((native, bridged)) => {
+            st.label("undeclared:object-returned");
+            for (what, a) in [("Adf::from_parser", &native), ("biodivine bridge", &bridged)] {
+                let names = sut::names_of(a);
+                for (li, nm) in names.iter().enumerate() {
+                    let s = c.adf.labels.iter().position(|l| l == nm).ok_or("unknown name")?;
+                    let want = &c.adf.acs[s];
+                    let sup: Vec<usize> = want.support().into_iter().collect();
+                    for bits in 0..(1u64 << sup.len().min(12)) {
+                        let val = |idx: usize| sup.iter().position(|&x| x == idx).map(|j| (bits >> j) & 1 == 1).unwrap_or(false);
+                        let by_lib = |lv: usize| lv < names.len() && val(c.adf.labels.iter().position(|l| l == &names[lv]).unwrap());
+                        if sut::walk(&a.bdd, a.ac[li], &by_lib)? != want.eval(&val) {
+                            return Err(format!(
+                                "{what} accepted a text with an undeclared statement ({:?}) and attached another condition to the declared statement {nm:?} than the one written for it",
+                                c.adf.labels[victim]
+                            ));
+                        }
+                    }
+                }
+            }
+        }
+    }
+    st.count("programs", 1);
+    st.nontrivial(case_hash(c), || json!({"text_without_declaration": cut.chars().take(300).collect::<String>(), "undeclared": c.adf.labels[victim]}));
+    Ok(Outcome::Ok)
+}
+
 pub fn c09(tier: Tier) -> PropSpec {
     PropSpec {
         id: "C09",
@@ -211,6 +265,7 @@ pub fn c09(tier: Tier) -> PropSpec {
                 },
                 c09_check,
             ),
+            Part::new("undeclared", tier.pick(4000, 40000), || crate::props::sem::sem_case(2, 6), c09_undeclared),
         ],
     }
 }
@@ -445,6 +500,16 @@ pub fn c10(tier: Tier) -> PropSpec {
                 tier.pick(800, 8000),
                 || meta_case(gen::adf_large(8, 24, 4, 3)),
                 c10_check,
+            ),
+            // the observation points named in the property: the CLI with --lx / --an (all three modes) ...
+            crate::props::cli::sem_cli_part("cli-sort", &[crate::props::cli::Flag::Grd, crate::props::cli::Flag::Com, crate::props::cli::Flag::Stm], tier.pick(150, 1500)),
+            // ... and sorting options combined with --export / --import
+            Part::with_shrink(
+                "cli-import-sort",
+                tier.pick(100, 1000),
+                200,
+                crate::props::cli::cli_export_strategy,
+                crate::props::cli::cli_export_check,
             ),
         ],
     }
